@@ -43,7 +43,8 @@ def gen_swarm(rng: random.Random):
 
 class DefGen:
     def __init__(self, rng: random.Random, swarm=None, max_depth=2, max_fields=7, allow_eof=True, fixed_only=False,
-                 no_dynamic_union=False):
+                 no_dynamic_union=False, plain_enums=False):
+        self.plain_enums = plain_enums
         self.rng = rng
         self.sw = swarm if swarm is not None else gen_swarm(rng)
         self.max_depth = max_depth
@@ -91,6 +92,10 @@ class DefGen:
         rng = self.rng
         kind = rng.choice(["enum", "enum", "flag"])
         base = rng.choice(INT_PACKED + (INT_WIDE[:4] if self.sw["wide"] else []))
+        if self.plain_enums:
+            # callers that do not want C12/C03 matters in their way: no flags, no enums over byte-sliced integers
+            kind = "enum"
+            base = rng.choice(INT_PACKED)
         members = []
         prev = []
         for i in range(rng.randint(1, 4)):
